@@ -296,6 +296,12 @@ def render(d, line0=0):
     pre = ''.join(x + '\n' for x in d.get('pre_attrs') or [])
     post = ''.join(x + '\n' for x in d.get('post_attrs') or [])
     wh = ' ' + d['where'] if d.get('where') else ''
+    if d.get('via_macro'):
+        # the declaration is produced by a user's macro_rules!, the bound arrives as an `expr` fragment
+        # (an invisible-delimiter group by the time the attribute macro sees it)
+        body = f"{render_attr(d, line0 + 2)}\n{vis}struct {d['name']}{g}({d['inner']});"
+        return (f"macro_rules! mk_{d['name']} {{\n    ($e:expr) => {{\n{body}\n    }};\n}}\n"
+                f"mk_{d['name']}!({d['via_macro']});\n")
     return f"{pre}{render_attr(d, line0 + len(d.get('pre_attrs') or []))}\n{post}{vis}struct {d['name']}{g}({d['inner']}){wh};\n"
 
 
@@ -867,6 +873,8 @@ def build(tier='quick', seed=0):
         # two-sided with an infinite end point: the scaling `lower + t * (upper - lower)` has an infinite range
         arb_cases.append([V('greater_or_equal', '0.0', 0.0, 'lit'), V('less_or_equal', f'{t}::INFINITY', float('inf'), 'expr')])
         arb_cases.append([V('greater', f'{t}::NEG_INFINITY', float('-inf'), 'expr'), V('less', '0.0', 0.0, 'lit'), V('finite')])
+        wide = ('3.0e38', f32_round(3.0e38)) if t == 'f32' else ('1.0e308', 1.0e308)
+        arb_cases.append([V('finite'), V('greater_or_equal', '-' + wide[0], -wide[1], 'lit'), V('less_or_equal', wide[0], wide[1], 'lit')])
         for vs in arb_cases:
             full.append(decl('float', t, validators=vs, derives=['Debug', 'Arbitrary'], tags=['arb']))
         full.append(decl('float', t, derives=['Debug', 'Arbitrary'], tags=['arb']))
@@ -1217,6 +1225,18 @@ def build(tier='quick', seed=0):
                   pre_attrs=['/// a documented newtype', '#[doc = "second line"]'], post_attrs=['/// docs between the attribute and the item']))
     full.append(X(decl('string', 'String', sanitizers=[S('trim')], validators=[V('not_empty')], derives=['Debug', 'TryFrom', 'AsRef'], tags=['forms']),
                   post_attrs=['#[doc(hidden)]']))
+
+    # declarations produced by a user's macro_rules!: the bound is an `expr` fragment whose top-level operator binds weaker
+    # than the `+ 1` / `- 1` the Arbitrary template appends, or than a unary minus
+    for t in ['u8', 'i32']:
+        U = t.upper()
+        for kind, frag, val in (('less', f'K_{U} << 3', K << 3), ('greater', f'K_{U} | 8', K | 8), ('less_or_equal', f'K_{U} << 1', K << 1),
+                                ('greater_or_equal', f'K_{U} & 4', K & 4), ('less', f'K_{U} + 1', K + 1), ('greater', '3', 3)):
+            full.append(X(decl('int', t, validators=[V(kind, '$e', val, 'expr')], derives=['Debug', 'TryFrom', 'Arbitrary'], tags=['via-macro']), via_macro=frag))
+    full.append(X(decl('float', 'f64', validators=[V('greater', '$e', KF + 1.0, 'expr'), V('finite')], derives=['Debug', 'TryFrom', 'Arbitrary'], tags=['via-macro']),
+                  via_macro='KF_F64 + 1.0'))
+    full.append(X(decl('string', 'String', validators=[V('len_char_max', '$e', MINLEN + 2, 'expr')], derives=['Debug', 'TryFrom', 'Arbitrary'], tags=['via-macro']),
+                  via_macro='MINLEN + 2'))
 
     # less common spellings of a bound: every one is an ordinary Rust expression of the inner type
     for t in ['i32', 'u64', 'i8']:
